@@ -53,13 +53,13 @@ macro_rules! recogniser {
                 match lx.$method() {
                     Some((_tok, span)) => {
                         check_span(s, &lx, &span);
-                        cover!(span.end == $n, "token_spans_whole_input");
                     }
                     None => {
                         assert!(lx.verif_rest().len() == s.len(), "declined but consumed input");
                         cover!(s.len() == $n, "declined_full_length_input");
                     }
                 }
+                cover!(s.len() == $n && !s.is_ascii(), "non_ascii_full_length_input_handled");
             }
         }
     };
@@ -166,7 +166,48 @@ macro_rules! err_span {
 err_span!(c06_err_span_3, 3, 6);
 err_span!(c06_err_span_4, 4, 7);
 
+/// `Span::character_range` (byte span -> character range used to render a report): for every text of at most N
+/// bytes and every span whose ends lie on character boundaries it does not panic and returns
+/// (characters before start, characters before end).
+macro_rules! char_range {
+    ($name:ident, $n:expr, $unwind:expr) => {
+        #[cfg_attr(kani, kani::proof)]
+        #[cfg_attr(kani, kani::unwind($unwind))]
+        pub fn $name() {
+            let b: Bytes<$n> = Bytes::any();
+            if let Some(s) = b.as_str() {
+                let start: usize = crate::nd::any();
+                let end: usize = crate::nd::any();
+                assume(start <= end && end <= s.len());
+                assume(s.is_char_boundary(start) && s.is_char_boundary(end));
+                let r = roto::verif_api::Span { file: 0, start, end }.character_range(s);
+                // reference: count the non-continuation bytes
+                let by = s.as_bytes();
+                let (mut cs, mut ce, mut i) = (0usize, 0usize, 0usize);
+                while i < by.len() {
+                    if (by[i] & 0xC0) != 0x80 {
+                        if i < start {
+                            cs += 1;
+                        }
+                        if i < end {
+                            ce += 1;
+                        }
+                    }
+                    i += 1;
+                }
+                assert!(r.start == cs && r.end == ce, "character range differs from the character counts");
+                cover!(end - start > r.end - r.start, "multi_byte_inside_span");
+                cover!(start > r.start, "multi_byte_before_span");
+            }
+        }
+    };
+}
+char_range!(c06_char_range_3, 3, 6);
+char_range!(c06_char_range_4, 4, 7);
+
 crate::list![
+    c06_char_range_3,
+    c06_char_range_4,
     c06_ipv6_3,
     c06_ipv4_3,
     c06_two_char_3,
